@@ -239,3 +239,59 @@ func runC05ToStr(c *Ctx) {
 		}
 	}
 }
+
+// runToStrCases: ToStr is handed, besides scalars, a reflect.Value (map keys: ToStr(iter.Key()))
+// and arbitrary element values (pointers, possibly nil). Both are rendered correctly only by the
+// fmt-based default branch: fmt prints the value a reflect.Value holds, and guards String()
+// methods of nil receivers. Therefore no case of the type switch may capture such arguments:
+// every case type must be a basic type (or string); a case on an interface type that
+// reflect.Value or a pointer type can satisfy (fmt.Stringer, error, ...), or on reflect.Value
+// itself, renders map keys of non-string kinds as "<int Value>" (all entries of a map then share
+// one path and one group) and calls String() on nil pointers (panic).
+func runToStrCases(c *Ctx, rule string) {
+	p := c.P
+	c.Rule(rule, "ToStr's type switch has cases for concrete non-reflect types only (no interface type, not reflect.Value); everything else (reflect.Value map keys, pointers, Stringers) reaches the fmt-based default", 1)
+	fn := p.Func("valid", "ToStr")
+	if fn == nil {
+		c.Unk(rule, "valid.ToStr", "cases", token.NoPos, "scalar rendering helper not found")
+		return
+	}
+	c.Funcs[fnName(fn)] = true
+	var bad []string
+	n := 0
+	for _, b := range fn.Blocks {
+		for _, ins := range b.Instrs {
+			ta, ok := ins.(*ssa.TypeAssert)
+			if !ok {
+				continue
+			}
+			n++
+			c.Sites++
+			switch t := ta.AssertedType.(type) {
+			case *types.Basic:
+				continue
+			default:
+				if _, isIface := t.Underlying().(*types.Interface); isIface {
+					bad = append(bad, fmt.Sprintf("a case on the interface type %s at %s captures reflect.Value map keys (rendered as \"<int Value>\") and nil pointers whose type has a String method (nil dereference)", shortType(t.String()), p.Pos(ta.Pos())))
+				} else if isNamed(t, "reflect", "Value") {
+					bad = append(bad, "a case on reflect.Value at "+p.Pos(ta.Pos())+" renders map keys of non-string kinds as \"<int Value>\"")
+				}
+				// other concrete types ([]byte, named scalars ...) cannot capture a reflect.Value or a nil pointer of another type
+			}
+		}
+	}
+	// the default: fmt.Sprintf("%v", value) / fmt.Sprint(value)
+	okDefault := false
+	for _, call := range callsIn(fn, "fmt.Sprintf") {
+		if f, ok := constString(call.Call.Args[0]); ok && f == "%v" {
+			okDefault = true
+		}
+	}
+	if len(callsIn(fn, "fmt.Sprint")) > 0 {
+		okDefault = true
+	}
+	if !okDefault {
+		bad = append(bad, "no fmt-based default rendering (%v) found")
+	}
+	c.Check(len(bad) == 0 && n > 0, rule, fnName(fn), "cases", fn.Pos(), fmt.Sprintf("%d basic-type cases, fmt %%v default", n), uniqJoin(bad, 3))
+}
